@@ -22,6 +22,20 @@ PROPS = {
         "assumptions": ["sim link is loss-free FIFO per direction", "hooks are matched 200 ms after Close returned so late is told apart from lost",
                         "result codes 2 (NormalClosure, wire alias of Succeeded) and 30 (TooShortPingInterval, C11's finding) are not sent by the scripted broker"],
     },
+    "C20": {
+        "level": "exploration",
+        "groups": [g("main", "c20", q=8, t=32, run="^Test(Regress|Single|Concurrent|Interval)$", gomaxprocs=[4, 1, 2, 16])],
+        "timeout": {"quick": 300, "thorough": 1800},
+        "rule": ("generated: (single) one goroutine, deterministic policy {none, size n in {0,1,7,16,40,64}, immediate} x programs of up to 30 ops "
+                 "{write 0-3 points with payload sizes straddling the threshold and zero-length payloads over 6 data ids, flush, flush with an already "
+                 "cancelled context, state snapshot, wait}; oracle = predicted chunk partition (each cancelled flush may or may not cut: all 2^k "
+                 "predictions tried), barrier, conservation, no early transmission, no empty chunk. (concurrent) 2-4 such programs under any policy: "
+                 "barrier per goroutine, conservation bound, no empty chunk. (interval) interval / interval-or-size policies: latency from Write "
+                 "return to arrival <= interval + 2 s slack. Non-trivial = a write crossing the threshold with earlier data buffered, a state action "
+                 "right after a write, or flushes from concurrent goroutines; distinct by case hash."),
+        "assumptions": ["broker acknowledges every chunk immediately", "a Flush with an already cancelled context may legitimately cut or not cut (Go select picks at random); both are accepted",
+                        "interval latency is judged with 2 s slack; a miss is reported only if it exceeds interval + slack"],
+    },
     "C17": {
         "level": "exploration",
         "groups": [g("main", "c17", q=4, t=16, run="^Test(Regress|Grid|RoundTrip|KeyValues|Binary|Derive|DialConfig)$")],
